@@ -306,13 +306,49 @@ def freezing_gen(gen):
 
 def scenarios(kitname):
     """scripted openings of some histories: states that random walks reach only rarely"""
-    from .hg import mkop
+    from .hg import item, mkop
 
+    def bulk(fmt, triples, tail=()):
+        """a bulk addition with explicit ids whose last item cannot be added (a None member): the call raises
+        after some of its items were stored; automatic additions follow"""
+        its = []
+        for m, h, i in triples:
+            it = item(m=m, id=i)
+            it["h"] = list(h)
+            its.append(it)
+        add = "add_simplices_from" if kitname == "SC" else "add_edges_from"
+        one = "add_simplex" if kitname == "SC" else "add_edge"
+        return [mkop(add, fmt=fmt, items=its, **({"n2": -1} if kitname == "SC" else {}))] + [
+            mkop(one, m=m, h=h, id=-1) for m, h in tail]
+
+    autos = [([0, 1], [2]), ([1, 3], [0]), ([2, 4], [4]), ([5, 0], [1]), ([3, 4], [2])]
+    raising = [
+        bulk(2, [([0, 1], [2], 2), ([2, 3], [3], 4), ([1, -1], [0], 6)], autos),
+        bulk(4, [([0, 1], [2], 3), ([1, 2], [0, 3], 1), ([4], [-1], 5)], autos),
+        bulk(5, [([0, 1], [2], 1), ([2, 3], [1], 3), ([-1, 4], [0], 4)], autos),
+    ]
+    if kitname == "DH":
+        A = lambda m, h, i: mkop("add_edge", m=m, h=h, id=i)  # noqa: E731
+        return raising + [
+            # a node on both sides, removed from one side, then weakly removed; ids used again
+            [A([0, 1], [1, 2], 0), A([1], [1], 1), mkop("remove_node_from_edge", e=0, n=1, s1="in", b1=False),
+             mkop("remove_node", n=1, b1=False, b2=False), A([3], [0], 1), A([2], [3], -1), A([0], [2], -1)],
+            # strong removal, then the same ids and automatic ones
+            [A([0, 1], [2], -1), A([2], [3, 4], -1), A([0], [4], 5), mkop("remove_node", n=2, b1=True),
+             A([1], [3], 0), A([4], [0], -1), A([0], [1], -1)],
+        ]
+    if kitname == "SC":
+        X = lambda m, i: mkop("add_simplex", m=m, id=i)  # noqa: E731
+        return raising + [
+            # explicit ids just ahead of the counter: the faces of the simplex take the automatic ids next to it
+            [X([0, 1, 2], 1), X([2, 3], -1), X([3, 4, 5], 9), X([0, 5], -1), mkop("remove_simplex_id", e=1), X([0, 1, 2], 2)],
+            [X([0, 1], -1), X([1, 2, 3], 4), X([0, 1, 2, 3], 7), mkop("remove_node", n=1), X([1, 2], 5), X([4, 5], -1)],
+        ]
     if kitname != "H":
         return []
     A = lambda m, i: mkop("add_edge", m=m, id=i)  # noqa: E731
     M = lambda r, rule="first": mkop("merge_duplicate_edges", s1=r, s2=rule)  # noqa: E731
-    return [
+    return raising + [
         # merging under tuple ids twice: the second tuple id is already carried by the first merge result
         [A([1, 2], 0), A([1, 2], 1), M("tuple"), A([3, 4], 0), A([3, 4], 1), M("tuple")],
         [A([1, 2], 0), A([1, 2], 1), A([0, 5], 2), M("tuple"), A([3], 0), A([3], 1), M("tuple", "union")],
